@@ -136,6 +136,7 @@ instance instBodyNested : ∀ n, Stable (bodyNested n)
 
 instance : Stable body := by unfold body; infer_instance
 instance : Stable msgAttBodyStructure := by unfold msgAttBodyStructure; infer_instance
+instance : Stable msgAttBody := by unfold msgAttBody; infer_instance
 
 /-! ### rfc3501/mod.rs -/
 
